@@ -32,7 +32,8 @@ ASSUMPTIONS = [
     "on the world (name-lookup order beyond the first table is C03)",
     "iterables unpacked by an assignment or a comprehension deliver at most ITER_BOUND (2; thorough 3) elements",
 ]
-NOT_DECIDED = ["deep nesting is covered by the induction argument (children opaque), not by enumeration",
+NOT_DECIDED = ["beyond the templates: random native differential against CPython only (bounded); it calls plain functions only, because calling an arbitrary object makes the interpreter probe it (asyncio.iscoroutinefunction, comparison with time.sleep) which only an instrumented __getattr__/__eq__ observes; UnboundLocalError and NameError are not distinguished there (pyscript closure cells raise the base class)",
+               "deep nesting is covered by the induction argument (children opaque), not by enumeration",
                "comprehension variable scoping, starred elements in set/dict displays, lambda: not in the verified shapes"]
 SHAPE_BOUNDS = {"operands of BoolOp / chained Compare": "<= 3", "display elements": "<= 3", "call arguments": "<= 2 + 2 keywords",
                 "assignment targets": "<= 2 names per tuple target", "iterations of unpacked iterables": "<= 2 (3 thorough)"}
@@ -148,6 +149,14 @@ def b_adequacy(seed):
             "cases": tried, "failures": failures}
 
 
+
+
+def b_random(seed_base, programs, what="both"):
+    def run(seed):
+        from replay.native import run_native
+        return run_native("c01_random_bounded", {"seed": seed_base + seed, "programs": programs, "what": what, "max_failures": 5}, timeout=1500)
+    return run
+
 def harnesses():
     hs = []
     heavy = {"ListComp.2gen", "ListComp.tuple-target"}  # nested iteration: thorough tier (larger budget)
@@ -157,4 +166,7 @@ def harnesses():
     for name, src in STMT.items():
         hs.append(Harness(name, h_template(name, src, "exec"), units=[(E_PY, "AstEval.aeval")], replay=replay_template, max_paths=3000))
     hs.append(Harness("adequacy.native-differential", b_adequacy, units=[(E_PY, "AstEval.aeval")], kind="bounded"))
+    hs.append(Harness("random.native-differential", b_random(0, 400), units=[(E_PY, "AstEval.aeval")], kind="bounded"))
+    for k in range(1, 9):
+        hs.append(Harness(f"random.native-differential[thorough {k}/8]", b_random(100 * k, 1500), units=[(E_PY, "AstEval.aeval")], kind="bounded", tier="thorough"))
     return hs
